@@ -184,7 +184,8 @@ def case(ctx, case):
             # the same beam search and the same evaluation in double precision: a conditioning effect vanishes (agreement
             # ~1e-9), a wrong parent / back-tracking index does not
             with torch.no_grad(), Float64(pol):
-                o64 = pol(td_to64(td0), env, phase="test", decode_type="beam_search", beam_width=W, select_best=case["select_best"], return_actions=True, return_sum_log_likelihood=False, **dkw)
+                # all beams are needed for the comparison, whatever the observed call selected
+                o64 = pol(td_to64(td0), env, phase="test", decode_type="beam_search", beam_width=W, select_best=False, return_actions=True, return_sum_log_likelihood=False, **dkw)
                 a64, l64 = o64["actions"], o64["log_likelihood"]
                 ok64 = None
                 if a64.shape[0] == W * B:
